@@ -40,6 +40,7 @@ def run(ctx: Context) -> None:
     _share(ctx, _c08, {'R08.1', 'R08.2'}, 'R09.8')
     from .common import adopt_foundations as _adopt
     _adopt(ctx, 'R09.9', ['masks', 'topology'], floor=60)
+    ctx.rule('R09.10', "the re-assembled result can be saved: an attribute of the input is not copied onto a variable that already holds the same key as an encoding", floor=2)
     ctx.assume("NOT decided: that the saved file reopens as the same convention (needs the file)")
     ctx.assume("xarray/netCDF apply encoding dtype and _FillValue on write")
 
@@ -173,19 +174,64 @@ def run(ctx: Context) -> None:
         ctx.check('R09.3', ok_item, "each present entry is replaced by its new index, each missing entry by the fill value, column order kept", uc, inner)
         arrs = [c for c in calls_in(uc) if callee(ctx, uc, c) == 'numpy.array' and c.args and uflow.resolve(c.args[0]) is comps[0]]
         dt = [n for n in walk_no_nested(uc.node) if isinstance(n, ast.Assign) and norm_text(n.targets[0]) == 'dtype']
-        ok = (len(arrs) == 1 and norm_text(kwarg(arrs[0], 'dtype') or ast.Constant(None)) == 'dtype' and bool(dt)
-              and norm_text(dt[0].value) == f"{conn_p}.encoding.get('dtype', {conn_p}.dtype)")
+        stored = f"{conn_p}.encoding.get('dtype', {conn_p}.dtype)"
+        ok = (len(arrs) == 1 and norm_text(kwarg(arrs[0], 'dtype') or ast.Constant(None)) == 'dtype' and len(dt) == 1
+              and norm_text(dt[0].value) in (stored, f"numpy.dtype({stored})"))
         ctx.check('R09.3', ok, "the integer type is the one the table is stored with", uc, dt[0] if dt else uc.node)
+        # the encoding may spell the type as 'int32' or numpy.int32: anything that reads .kind / iinfo needs a numpy.dtype
+        ok = len(dt) == 1 and isinstance(dt[0].value, ast.Call) and callee(ctx, uc, dt[0].value) == 'numpy.dtype'
+        ctx.check('R09.3', ok, "the stored type is normalised with numpy.dtype(...) before its kind is read (xarray accepts a string or a scalar type in encoding['dtype'])", uc, dt[0] if dt else uc.node)
+        # the fill value is clamped to what the stored type can hold, for every integer kind
+        clamp = [n for n in fv_adjust if 'max' in norm_text(n.value)]
+        kinds_ok = False
+        gtxt = '?'
+        if len(clamp) == 1:
+            from .common import guards as _guards
+            gs_ = _guards(uc, clamp[0])
+            gtxt = str(gs_)
+            for text, pol in gs_:
+                if pol and text.replace('"', "'") in ("dtype.kind in 'iu'", "dtype.kind in 'ui'", "dtype.kind in ('i', 'u')", "dtype.kind in ('u', 'i')",
+                                                      'numpy.issubdtype(dtype, numpy.integer)'):
+                    kinds_ok = True
+        ctx.check('R09.3', kinds_ok, "the fill value is clamped to the representable range for signed and unsigned integer types alike (uint8 / uint16 tables overflow otherwise)", uc,
+                  clamp[0] if clamp else uc.node, construct=f"clamp guards: {gtxt}")
         trs = [c for c in calls_in(uc) if callee(ctx, uc, c) == 'numpy.transpose']
         ok = False
         if len(trs) == 1:
             g = [(norm_text(st.test), inb) for st, inb in enclosing_ifs(uc, trs[0])]
             ok = (f"{conn_p}.dims[1] == {prim_p}", True) in g
         ctx.check('R09.3', ok, "a table stored with its primary dimension second is transposed back", uc, trs[0] if trs else uc.node)
-        ok = len(mk) == 1 and {k.arg: norm_text(k.value) for k in mk[0].keywords} == {
-            'data': 'values', 'fill_value': fill_p, 'dims': f"{conn_p}.dims", 'name': f"{conn_p}.name", 'attrs': f"{conn_p}.attrs"}
+        kws = {k.arg: k.value for k in mk[0].keywords} if len(mk) == 1 else {}
+        ok = {k: norm_text(v) for k, v in kws.items() if k != 'attrs'} == {
+            'data': 'values', 'fill_value': fill_p, 'dims': f"{conn_p}.dims", 'name': f"{conn_p}.name"}
         ok = ok and all(uflow.resolve(r.value) is mk[0] for r in uc.returns())
-        ctx.check('R09.3', ok, "dims, name and attributes (including start_index) are those of the input table", uc, mk[0] if mk else uc.node)
+        ctx.check('R09.3', ok, "dims and name are those of the input table", uc, mk[0] if mk else uc.node)
+        # attributes: the table's own, minus the fill value (which _masked_integer_data_array declares in the encoding:
+        # xarray refuses to save a variable that has it in both places)
+        av = uflow.resolve(kws['attrs']) if 'attrs' in kws else None
+        dropped = None
+        if isinstance(av, ast.DictComp) and len(av.generators) == 1 and len(av.generators[0].ifs) == 1:
+            g_ = av.generators[0]
+            it_ = uflow.resolve(g_.iter)
+            tgt = g_.target
+            if isinstance(it_, ast.Call) and isinstance(it_.func, ast.Attribute) and it_.func.attr == 'items' and norm_text(it_.func.value) == f"{conn_p}.attrs" \
+                    and isinstance(tgt, ast.Tuple) and len(tgt.elts) == 2 and norm_text(av.key) == norm_text(tgt.elts[0]) and norm_text(av.value) == norm_text(tgt.elts[1]):
+                t_ = g_.ifs[0]
+                if isinstance(t_, ast.Compare) and len(t_.ops) == 1 and norm_text(t_.left) == norm_text(tgt.elts[0]):
+                    if isinstance(t_.ops[0], ast.NotEq) and isinstance(const_value(t_.comparators[0], None), str):
+                        dropped = {const_value(t_.comparators[0], None)}
+                    elif isinstance(t_.ops[0], ast.NotIn):
+                        from .common import literal_strings
+                        ls = literal_strings(t_.comparators[0])
+                        dropped = set(ls) if ls is not None else None
+        elif av is not None and norm_text(av) == f"{conn_p}.attrs":
+            dropped = set()
+        ctx.check('R09.3', dropped is not None and dropped <= {'_FillValue', 'missing_value'},
+                  "the attributes are those of the input table (start_index, cf_role, long_name ... are kept); only fill declarations may be left out", uc, mk[0] if mk else uc.node,
+                  construct=f"attrs = {norm_text(av) if av is not None else '?'}; left out: {sorted(dropped) if dropped is not None else '?'}")
+        ctx.check('R09.3', dropped is not None and '_FillValue' in dropped,
+                  "the _FillValue attribute of a table opened without masking is not copied next to the _FillValue encoding of the new table (such a variable cannot be saved)", uc, mk[0] if mk else uc.node,
+                  construct=f"attributes left out: {sorted(dropped) if dropped is not None else '?'}")
         mi = ctx.func(f"{UGRID}._masked_integer_data_array")
         ok = any("data_array.encoding.update({'dtype': data.dtype, '_FillValue': fill_value})" == norm_text(s) for s in mi.body)
         ctx.check('R09.3', ok, "the written variable is encoded with the integer dtype and that _FillValue", mi, mi.node)
@@ -269,6 +315,38 @@ def run(ctx: Context) -> None:
             ok = all(norm_text(r.value) == 'masking.mask_grid_dataset(self.dataset, clip_mask, work_dir)' for r in fi.returns()) and fi.returns()
             ctx.check('R09.5', bool(ok), "grid conventions apply the mask to their own dataset through masking.mask_grid_dataset", fi, fi.node)
 
+    # ------------------------------------------------------------------ R09.10 dataset_like
+    with ctx.section('R09.10'):
+        from ..pattern import Matcher
+        dl = ctx.func('emsarray.utils.dataset_like')
+        dflow = ctx.flow(dl)
+        m = Matcher(ctx, dl)
+        loop = m.stmt('for $key, $sample in $sample_dataset.variables.items():\n    ...')
+        ctx.need('R09.10', loop is not None and m.stmt('$new = $like.variables[$key]', within=loop) is not None, "dataset_like copies attributes variable by variable", dl)
+        ups = [c for c in ast.walk(loop) if isinstance(c, ast.Call) and callee(ctx, dl, c) == 'emsarray.utils._update_no_clobber' and len(c.args) == 2
+               and norm_text(c.args[1]) == f"{m.name('new')}.attrs"]
+        ctx.need('R09.10', len(ups) == 1, "one attribute update per variable", dl)
+        src = dflow.resolve(ups[0].args[0])
+        ok, why = False, norm_text(src)[:120]
+        if isinstance(src, ast.DictComp) and len(src.generators) == 1 and len(src.generators[0].ifs) == 1:
+            g = src.generators[0]
+            it = dflow.resolve(g.iter)
+            t = g.ifs[0]
+            if isinstance(it, ast.Call) and isinstance(it.func, ast.Attribute) and it.func.attr == 'items' and norm_text(it.func.value) == f"{m.name('sample')}.attrs" \
+                    and isinstance(g.target, ast.Tuple) and len(g.target.elts) == 2 and norm_text(src.key) == norm_text(g.target.elts[0]) \
+                    and norm_text(src.value) == norm_text(g.target.elts[1]) \
+                    and isinstance(t, ast.Compare) and len(t.ops) == 1 and isinstance(t.ops[0], ast.NotIn) and norm_text(t.left) == norm_text(g.target.elts[0]) \
+                    and norm_text(t.comparators[0]) == f"{m.name('new')}.encoding":
+                ok = True
+        ctx.check('R09.10', ok, "the attributes copied from the input variable leave out every key the new variable holds as an encoding "
+                  "(_FillValue, missing_value, units of a re-decoded work file): xarray refuses to save a variable with the key in both places", dl, ups[0],
+                  construct=f"attribute source: {why}")
+        encs = [c for c in ast.walk(loop) if isinstance(c, ast.Call) and callee(ctx, dl, c) == 'emsarray.utils._update_no_clobber' and len(c.args) == 2
+                and norm_text(c.args[1]) == f"{m.name('new')}.encoding" and norm_text(c.args[0]) == f"{m.name('sample')}.encoding"]
+        nc = ctx.func('emsarray.utils._update_no_clobber')
+        mn = Matcher(ctx, nc)
+        ok = len(encs) == 1 and mn.stmt('for $k, $v in $source.items():\n    if $k not in $dest:\n        $dest[$k] = $v') is not None
+        ctx.check('R09.10', ok, "encodings are copied from the input variable without replacing what the new variable already has", dl, encs[0] if encs else loop)
 
 
 # --------------------------------------------------------------------------- checker self-test
@@ -284,10 +362,16 @@ VARIANTS = [
     V('C09', 'edge-face-site-deleted', _U, "        if has_edges and topology.has_valid_edge_face_connectivity:\n            topology_variables.append(update_connectivity(\n                topology.edge_face_connectivity, topology.edge_face_array,\n                new_edge_indexes, new_face_indexes,\n                primary_dimension=topology.edge_dimension, fill_value=new_fill_value))\n", "", 'R09.6'),
     V('C09', 'face-edge-wrong-guard', _U, "        if has_edges and topology.has_valid_face_edge_connectivity:", "        if has_edges and topology.has_valid_edge_node_connectivity:", 'R09.6'),
     V('C09', 'face-face-needs-edges', _U, "        if topology.has_valid_face_face_connectivity:\n            topology_variables", "        if has_edges and topology.has_valid_face_face_connectivity:\n            topology_variables", 'R09.6'),
-    V('C09', 'start-index-not-readded', _U, "    if start_index != 0:\n        column_values = column_values + start_index\n\n    dtype", "    dtype", 'R09.3'),
-    V('C09', 'shift-after-fill', _U, "    start_index = _get_start_index(connectivity)\n    if start_index != 0:\n        column_values = column_values + start_index\n\n    dtype", "    start_index = _get_start_index(connectivity)\n\n    dtype", ('R09.2', 'R09.3')),
+    V('C09', 'start-index-not-readded', _U, "    if start_index != 0:\n        column_values = column_values + start_index\n", "", 'R09.3'),
+    V('C09', 'shift-after-fill', _U, "    start_index = _get_start_index(connectivity)\n    if start_index != 0:\n        column_values = column_values + start_index\n", "    start_index = _get_start_index(connectivity)\n", ('R09.2', 'R09.3')),
     V('C09', 'masked-columns-not-filled', _U, "    column_values = numpy.ma.filled(column_values, fill_value)\n", "", 'R09.2'),
-    V('C09', 'attrs-dropped', _U, "        name=connectivity.name,\n        attrs=connectivity.attrs,\n    )", "        name=connectivity.name,\n    )", 'R09.3'),
+    V('C09', 'attrs-dropped', _U, "        attrs={\n            key: value for key, value in connectivity.attrs.items()\n            if key != '_FillValue'\n        },\n", "", 'R09.3'),
+    V('C09', 'attrs-fill-value-copied', _U, "        attrs={\n            key: value for key, value in connectivity.attrs.items()\n            if key != '_FillValue'\n        },\n", "        attrs=connectivity.attrs,\n", 'R09.3'),
+    V('C09', 'attrs-start-index-left-out', _U, "            if key != '_FillValue'\n", "            if key not in ('_FillValue', 'start_index')\n", 'R09.3'),
+    V('C09', 'benign-attrs-missing-value-left-out', _U, "            if key != '_FillValue'\n", "            if key not in ('_FillValue', 'missing_value')\n", None),
+    V('C09', 'clamp-signed-only', _U, "    if dtype.kind in 'iu':", "    if dtype.kind == 'i':", 'R09.3'),
+    V('C09', 'dtype-not-normalised', _U, "    dtype = numpy.dtype(connectivity.encoding.get('dtype', connectivity.dtype))", "    dtype = connectivity.encoding.get('dtype', connectivity.dtype)", 'R09.3'),
+    V('C09', 'dataset-like-copies-encoded-keys', 'src/emsarray/utils.py', "        _update_no_clobber({\n            name: value for name, value in sample_variable.attrs.items()\n            if name not in new_variable.encoding\n        }, new_variable.attrs)", "        _update_no_clobber(sample_variable.attrs, new_variable.attrs)", 'R09.10'),
     V('C09', 'all-rows-written', _U, "        for row in old_array[include_row]", "        for row in old_array", 'R09.3'),
     V('C09', 'cf-inventory-data-vars-only', _G, "            if bounds_name is not None and bounds_name in self.dataset.variables:", "            if bounds_name is not None and bounds_name in self.dataset.data_vars:", 'R09.4'),
     V('C09', 'select-variables-forgets-depth', _B, "            *self.get_all_geometry_names(),\n            *self.depth_coordinates,\n        ]", "            *self.get_all_geometry_names(),\n        ]", 'R09.4'),
